@@ -44,6 +44,40 @@
 
 #include "tsgCandidateManager.hpp"
 
+#ifdef TASMANIAN_VERIF_HOOKS
+#ifndef TASMANIAN_VERIF_HOOK_SINK
+#define TASMANIAN_VERIF_HOOK_SINK
+namespace TasGrid{
+/*!
+ * \internal
+ * \brief Verification-only trace/yield points of the threaded addons (compiled only with -DTASMANIAN_VERIF_HOOKS).
+ *
+ * A driver may install a sink that receives (event, thread id or count, x, y) records and may sleep or yield inside it
+ * to widen race windows; without a sink (the default) every hook is a no-op.
+ * \endinternal
+ */
+namespace VerifHooks{
+    using EventSink = void (*)(int event, size_t id, double const *x, size_t nx, double const *y, size_t ny);
+    inline EventSink& eventSink(){ static EventSink sink = nullptr; return sink; }
+    inline void emit(int event, size_t id, double const *x = nullptr, size_t nx = 0, double const *y = nullptr, size_t ny = 0){
+        EventSink sink = eventSink();
+        if (sink != nullptr) sink(event, id, x, nx, y, ny);
+    }
+    enum Event{
+        // constructSurrogate, main thread
+        ev_init_job = 1, ev_init_shutdown = 2, ev_loop_top = 3, ev_cs_enter = 4, ev_collect = 5, ev_load_call = 6, ev_refreshed = 7,
+        ev_handout = 8, ev_shutdown_nocand = 9, ev_shutdown_budget = 10, ev_cs_exit = 11, ev_pre_notify_all = 12, ev_notified_all = 13,
+        ev_loop_exit = 14, ev_joined = 15,
+        // constructSurrogate, worker threads
+        ev_w_done = 20, ev_w_pre_notify = 21, ev_w_notified = 22, ev_w_wake = 23, ev_w_exit = 24,
+        // loadNeededValues, worker threads
+        ev_q_pre_lock = 30, ev_q_checkout = 31, ev_q_exit = 32
+    };
+}
+}
+#endif
+#endif
+
 namespace TasGrid{
 
 /*!
@@ -156,6 +190,9 @@ void constructCommon(ModelSignature model,
     };
 
     auto load_complete = [&]()->void{ // loads any complete points, does nothing if getNumStored() is zero
+#ifdef TASMANIAN_VERIF_HOOKS
+        VerifHooks::emit(VerifHooks::ev_load_call, complete.getNumStored());
+#endif
         if (complete.getNumStored() > 0)
             complete.load(grid);
     };
@@ -163,6 +200,9 @@ void constructCommon(ModelSignature model,
     auto refresh_candidates = [&]()->void{ // loads complete and asks for new candidates
         load_complete(); // always load before computing new candidates
         manager = candidates(grid); // get new candidates
+#ifdef TASMANIAN_VERIF_HOOKS
+        VerifHooks::emit(VerifHooks::ev_refreshed, manager.getNumCandidates());
+#endif
     };
 
     size_t total_num_launched = complete.getNumStored() + grid.getNumLoaded(); // count all launched jobs, including the ones already complete
@@ -216,15 +256,30 @@ void constructCommon(ModelSignature model,
                     std::lock_guard<std::mutex> lock(access_count_done);
                     work_flag[thread_id] = flag_done;
                     count_done++;
+#ifdef TASMANIAN_VERIF_HOOKS
+                    VerifHooks::emit(VerifHooks::ev_w_done, thread_id, nullptr, (size_t) count_done);
+#endif
                 }
+#ifdef TASMANIAN_VERIF_HOOKS
+                VerifHooks::emit(VerifHooks::ev_w_pre_notify, thread_id);
+#endif
                 until_someone_done.notify_one(); // just finished some work, notify the main thread
+#ifdef TASMANIAN_VERIF_HOOKS
+                VerifHooks::emit(VerifHooks::ev_w_notified, thread_id);
+#endif
 
                 { // wait till the main thread gives us an new piece of work
                     std::unique_lock<std::mutex> lock(access_count_done);
                     until_new_job.wait(lock, [&]()->bool{ return (work_flag[thread_id] != flag_done); });
                     my_flag = work_flag[thread_id];
+#ifdef TASMANIAN_VERIF_HOOKS
+                    VerifHooks::emit(VerifHooks::ev_w_wake, thread_id, nullptr, (size_t) my_flag);
+#endif
                 }
             }
+#ifdef TASMANIAN_VERIF_HOOKS
+            VerifHooks::emit(VerifHooks::ev_w_exit, thread_id);
+#endif
         };
 
         // launch initial set of jobs
@@ -235,9 +290,15 @@ void constructCommon(ModelSignature model,
                 total_num_launched += x[id].size() / num_dimensions;
                 set_initial_guess(x[id], y[id]);
                 work_flag[id] = flag_computing;
+#ifdef TASMANIAN_VERIF_HOOKS
+                VerifHooks::emit(VerifHooks::ev_init_job, id, x[id].data(), x[id].size());
+#endif
                 workers[id] = std::thread(do_work, id);
             }else{
                 work_flag[id] = flag_shutdown; // not enough samples, cancel the thread
+#ifdef TASMANIAN_VERIF_HOOKS
+                VerifHooks::emit(VerifHooks::ev_init_shutdown, id);
+#endif
             }
         }
 
@@ -245,6 +306,9 @@ void constructCommon(ModelSignature model,
             bool any_done = false;
             for(size_t id=0; id<num_parallel_jobs; id++){
                 if (work_flag[id] == flag_done){
+#ifdef TASMANIAN_VERIF_HOOKS
+                    VerifHooks::emit(VerifHooks::ev_collect, id, x[id].data(), x[id].size(), y[id].data(), y[id].size());
+#endif
                     if (!x.empty()){ // shouldn't be empty
                         complete.add(x[id], y[id]);
                         manager.complete(x[id]);
@@ -264,11 +328,20 @@ void constructCommon(ModelSignature model,
                             total_num_launched += x[id].size() / num_dimensions;
                             set_initial_guess(x[id], y[id]);
                             work_flag[id] = flag_computing;
+#ifdef TASMANIAN_VERIF_HOOKS
+                            VerifHooks::emit(VerifHooks::ev_handout, id, x[id].data(), x[id].size());
+#endif
                         }else{
                             work_flag[id] = flag_shutdown; // not enough samples, cancel the thread
+#ifdef TASMANIAN_VERIF_HOOKS
+                            VerifHooks::emit(VerifHooks::ev_shutdown_nocand, id);
+#endif
                         }
                     }else{
                         work_flag[id] = flag_shutdown; // reached the budget, shutdown the thread
+#ifdef TASMANIAN_VERIF_HOOKS
+                        VerifHooks::emit(VerifHooks::ev_shutdown_budget, id);
+#endif
                     }
                 }
             }
@@ -276,21 +349,42 @@ void constructCommon(ModelSignature model,
         };
 
         while(manager.getNumRunning() > 0){ // main loop
+#ifdef TASMANIAN_VERIF_HOOKS
+            VerifHooks::emit(VerifHooks::ev_loop_top, manager.getNumRunning());
+#endif
             {   // lock access to the count_done variable
                 std::unique_lock<std::mutex> lock(access_count_done);
                 // unlock and wait until some else increments the "done" count
                 until_someone_done.wait(lock, [&]()->bool{ return (count_done > 0); });
+#ifdef TASMANIAN_VERIF_HOOKS
+                VerifHooks::emit(VerifHooks::ev_cs_enter, (size_t) count_done);
+#endif
                 // the lock is back on at this point, process the completed samples, reset the count and go back to waiting
                 count_done = 0;
                 if (collect_finished()) checkpoint(); // if new samples were computed, save the state
+#ifdef TASMANIAN_VERIF_HOOKS
+                VerifHooks::emit(VerifHooks::ev_cs_exit, 0);
+#endif
             } // unlock the access_count_done and notify that we have loaded new jobs
             // without the unlock, the threads will wake up but will not be able to read the worker flags
+#ifdef TASMANIAN_VERIF_HOOKS
+            VerifHooks::emit(VerifHooks::ev_pre_notify_all, 0);
+#endif
             until_new_job.notify_all();
+#ifdef TASMANIAN_VERIF_HOOKS
+            VerifHooks::emit(VerifHooks::ev_notified_all, 0);
+#endif
         }
 
+#ifdef TASMANIAN_VERIF_HOOKS
+        VerifHooks::emit(VerifHooks::ev_loop_exit, manager.getNumRunning());
+#endif
         load_complete(); // flush completed jobs
 
         for(auto &w : workers) if (w.joinable()) w.join(); // join all threads
+#ifdef TASMANIAN_VERIF_HOOKS
+        VerifHooks::emit(VerifHooks::ev_joined, 0);
+#endif
 
     }else{
         std::vector<double> x(grid.getNumDimensions()), y( grid.getNumOutputs());
